@@ -99,7 +99,7 @@ func contentClass(s string) string {
 }
 
 func checkC17(c *Check) {
-	c.Rule = "model file system (path -> bytes) versus the real sandbox after the script: (1) single-store cells: 33 path spellings x literal/run-time path x contents (C08 payloads, every printable character, newline/tab, empty) x literal/run-time content x top level / inside a function x literal / computed append flag, each cell doing exists, write, read, append, overwrite, append; (2) histories of 1-12 write/append/read/exists operations over three paths (all histories up to length 2 or 3, random beyond); oracle = reference stdout plus a recursive snapshot of the sandbox (every path, every byte; a write that touches another path shows as a stray or missing file). Non-trivial = at least one write executed; distinct = SHA-256 of source + files"
+	c.Rule = "model file system (path -> bytes) versus the real sandbox after the script: (1) single-store cells: 33 path spellings x literal/run-time path x contents (C08 payloads, every printable character, newline/tab, empty) x literal/run-time content x top level / inside a function x literal / computed append flag, each cell doing exists, write, read, append, overwrite, append; (2) nested operations: path, data or flag expressions that call functions performing writes/reads themselves; (3) histories of 1-12 write/append/read/exists operations over three paths (all histories up to length 2 or 3, random beyond); oracle = reference stdout plus a recursive snapshot of the sandbox (every path, every byte; a write that touches another path shows as a stray or missing file). Non-trivial = at least one write executed; distinct = SHA-256 of source + files"
 	c.Assumptions = []string{"literal spellings of the characters \" $ ` \\ are not used (recorded under C08); such values arrive through read() from pre-created files", "Batch helpers not claimed"}
 	runProbes(c, bashProbeJudge)
 	nontrivial := func(r Result) bool { return r.Features["write"] > 0 }
@@ -159,6 +159,34 @@ func checkC17(c *Check) {
 				}
 				add(c17Cell(key, pth[1], false, v, crt, r.Intn(2) == 0, r.Intn(2) == 0))
 			}
+		}
+	}
+	// nested operations: the path, data or flag expression of a file operation calls a function that performs
+	// file operations itself (a write in progress must not be disturbed by a write made while its operands
+	// are evaluated)
+	{
+		logged := fn("logged", []Param{{"s", TString}}, []Type{TString}, Write{Path: sl("log file.txt"), Data: vr("s"), Append: bl(true)}, ret(bin("+", vr("s"), sl("!"))))
+		pathOf := fn("pathOf", []Param{{"k", TInt}}, []Type{TString}, Write{Path: sl("marker.txt"), Data: Itoa{vr("k")}}, ret(bin("+", bin("+", sl("out "), Itoa{vr("k")}), sl(".txt"))))
+		flagFn := fn("flagOn", nil, []Type{TBool}, Write{Path: sl("flag.txt"), Data: sl("asked"), Append: bl(true)}, ret(bl(true)))
+		peek := fn("peek", []Param{{"p", TString}}, []Type{TString}, ret(Read{vr("p")}))
+		prelude := []Stmt{logged, pathOf, flagFn, peek}
+		nested := map[string][]Stmt{
+			"data-writes":           {Write{Path: sl("out.txt"), Data: call("logged", sl("a"))}, pr(framed(Read{sl("out.txt")}), framed(Read{sl("log file.txt")}))},
+			"data-writes-blank-path": {Write{Path: sl("my out.txt"), Data: call("logged", sl("a"))}, Write{Path: sl("my out.txt"), Data: call("logged", sl("b")), Append: bl(true)}, pr(framed(Read{sl("my out.txt")}), framed(Read{sl("log file.txt")}))},
+			"data-writes-twice":     {Write{Path: sl("out.txt"), Data: call("logged", call("logged", sl("c")))}, pr(framed(Read{sl("out.txt")}), framed(Read{sl("log file.txt")}))},
+			"path-writes":           {Write{Path: call("pathOf", il(1)), Data: sl("x")}, pr(framed(Read{sl("out 1.txt")}), framed(Read{sl("marker.txt")}))},
+			"path-and-data-write":   {Write{Path: call("pathOf", il(2)), Data: call("logged", sl("d"))}, pr(framed(Read{sl("out 2.txt")}), framed(Read{sl("marker.txt")}), framed(Read{sl("log file.txt")}))},
+			"all-three-write":       {Write{Path: sl("keep.txt"), Data: sl("first")}, Write{Path: sl("keep.txt"), Data: call("logged", sl("e")), Append: call("flagOn")}, pr(framed(Read{sl("keep.txt")}), framed(Read{sl("flag.txt")}), framed(Read{sl("log file.txt")}))},
+			"data-reads-target":     {Write{Path: sl("out.txt"), Data: sl("v1")}, Write{Path: sl("out.txt"), Data: bin("+", call("peek", sl("out.txt")), sl("+"))}, pr(framed(Read{sl("out.txt")}))},
+			"read-path-writes":      {Write{Path: sl("out 3.txt"), Data: sl("three")}, pr(framed(Read{call("pathOf", il(3))})), pr(framed(Read{sl("marker.txt")}))},
+			"exists-path-writes":    {pr(Exists{call("pathOf", il(4))}), Write{Path: sl("out 4.txt"), Data: sl("four")}, pr(Exists{call("pathOf", il(4))}), pr(framed(Read{sl("marker.txt")}))},
+			"sequence-of-nested":    {Write{Path: sl("one.txt"), Data: call("logged", sl("p"))}, Write{Path: sl("two.txt"), Data: call("logged", sl("q"))}, Write{Path: sl("one.txt"), Data: call("logged", sl("r")), Append: bl(true)}, pr(framed(Read{sl("one.txt")}), framed(Read{sl("two.txt")}), framed(Read{sl("log file.txt")}))},
+		}
+		for _, k := range sortedStmtKeys(nested) {
+			top := append(append([]Stmt{}, prelude...), nested[k]...)
+			add(BashCase{Key: "nested/" + k + "/top", Prog: SingleFile(append(top, pr(sl("done")))), CheckFS: true}, true)
+			inFn := append(append([]Stmt{}, prelude...), fn("run", nil, nil, nested[k]...), callS("run"), pr(sl("done")))
+			add(BashCase{Key: "nested/" + k + "/func", Prog: SingleFile(inFn), CheckFS: true}, true)
 		}
 	}
 	// histories
